@@ -10,10 +10,10 @@ CONSTANTS
   SigmaSeeded = TRUE
   SplitSeeded = TRUE
   BootSeeded = TRUE
-  FreshModelPerCall = FALSE
+  FreshModelPerCall = TRUE
   DefaultsUntouched = TRUE
   OrderedIteration = TRUE
   SummaryStateless = TRUE
-  WeightsRebuilt = TRUE
+  WeightsRebuilt = FALSE
 INVARIANT Functional
 CHECK_DEADLOCK FALSE
